@@ -6,8 +6,22 @@ import json
 import vlib, m3, irutil
 from batch import Batch, J, canon, split_answer
 
-PROOF_TARGETS = ["TypifyModel.Proofs.C11"]
-PROOF_FILES = ["Proofs/C11.lean", "Proofs/Lemmas/StrConvLemmas.lean"]
+PROOF_TARGETS = ["TypifyModel.Proofs.C11", "TypifyModel.Proofs.C11Natives", "TypifyModel.Proofs.C11Findings"]
+PROOF_FILES = ["Proofs/C11.lean", "Proofs/C11Natives.lean", "Proofs/C11Findings.lean", "Proofs/Lemmas/StrConvLemmas.lean"]
+DATETIME = "::chrono::DateTime<::chrono::offset::Utc>"
+
+def table_formats(): return [(f, p) for f, p, _ in vlib.string_formats_table()[0]]
+
+def formats_doc():
+    fs = [f for f, _ in table_formats() if not f.startswith("?")]
+    defs = {}
+    for i, f in enumerate(fs):
+        defs["Fmt%d" % i] = {"type": "string", "format": f}
+    for i in range(len(fs)):
+        j = (i + 1) % len(fs)
+        if i != j: defs["Mix%d" % i] = {"oneOf": [{"type": "string", "format": fs[i]}, {"type": "string", "format": fs[j]}]}
+    defs["Opaque"] = {"type": "string", "format": "no-such-format"}
+    return {"title": "R", "type": "object", "properties": {"a": {"$ref": "#/definitions/Fmt0"}} if fs else {}, "definitions": defs}
 
 HAND = [
   {"title": "R", "type": "object", "properties": {"e": {"$ref": "#/definitions/E"}}, "definitions": {
@@ -25,6 +39,7 @@ HAND = [
 def cases(ctx):
     import gen
     out = [("hand:%d" % i, {"settings": {}, "calls": [{"root": d}]}) for i, d in enumerate(HAND)]
+    out.append(("formats", {"settings": {}, "calls": [{"root": formats_doc()}]}))
     for name, doc in gen.fixture_docs():
         if name.startswith("github") and ctx.tier != "thorough": continue
         out.append(("fixture:" + name, {"settings": {}, "calls": [{"root": doc}]}))
@@ -55,9 +70,9 @@ def run(ctx):
     reqs = []; meta = []
     for c, sw in targets:
         if not c.compiled: continue
-        for name, tid, kind in sw[: (50 if ctx.tier == "thorough" else 12)]:
+        for name, tid, kind in sw[: (50 if ctx.tier == "thorough" or c.tag == "formats" else 12)]:
             probes = irutil.string_probes(c.dump, tid, ctx.rng)
-            for s in probes[: (80 if ctx.tier == "thorough" else 40)]:
+            for s in probes[: (80 if ctx.tier == "thorough" or "native" in kind else 40)]:
                 for op in ("fromstr", "de", "tryfrom_str", "tryfrom_string", "tryfrom_refstring", "display"):
                     reqs.append((c, name, op, J(s))); meta.append((kind, s))
     ctx.log("cases=%d compiled=%d string-wire types=%d requests=%d" % (len(bc), sum(1 for c in bc if c.compiled),
@@ -82,6 +97,21 @@ def run(ctx):
         if d[0] == "ok" and de_[0] == "ok" and d[1] != de_[1]:
             fails.append((cid, ty, payload, "display!=serialized", a["display"], a["de"]))
     cmap = {id(c): c for c in bc}
+    findings = vlib.load_findings("C11"); known_hit = {}
+    def attributed(cid, ty, what):
+        c = cmap[cid]; tid = irutil.named(c.dump).get(ty, (None,))[0]
+        if what == "display!=serialized" and tid is not None and DATETIME in irutil.native_paths(c.dump, tid):
+            return next((f for f in findings if f["id"] == "C11-datetime-display"), None)
+        return None
+    new = []
+    for fl in fails:
+        fd = attributed(fl[0], fl[1], fl[3])
+        if fd: known_hit[fd["id"]] = known_hit.get(fd["id"], 0) + 1
+        else: new.append(fl)
+    for fd in findings:
+        if known_hit.get(fd["id"]): vlib.known(ctx, fd)
+        else: ctx.notes.append("known finding %s did not reproduce on this run" % fd["id"])
+    all_fails, fails = fails, new
     broken = list(st["broken"])
     if r["disagreements"]:
         broken.append("correspondence M3 (string conversions): model and compiled code disagree on %d requests" % len(r["disagreements"]))
@@ -106,11 +136,13 @@ def run(ctx):
            "samples": [{"type": rq[1], "op": rq[2], "probe": rq[3], "compiled": ra} for rq, ra in list(zip(reqs, r["real"]))[:6]],
            "traces_validated_against_impl": len(reqs) - r["skipped_model"] - r["skipped_real"],
            "model_disagreements": len(r["disagreements"]), "model_out_of_fragment": r["skipped_model"],
-           "compiled_skipped": r["skipped_real"], "impl_oracle_failures": len(fails),
+           "compiled_skipped": r["skipped_real"], "impl_oracle_failures": len(fails), "impl_oracle_failures_known": known_hit,
+           "string_formats_table": table_formats(),
            "probe_kinds": kinds, "compiled_status": r.get("real_status", {})}
     vlib.write_evidence(ctx, "proof", cov, [
         "serde/serde_json/regress are third-party: their behaviour on the emitted items is modelled and validated differentially (M3), not verified",
-        "newtypes over natives (uuid, chrono, ...) and over non-string inner types are outside the proved kinds; they are exercised on the implementation only"])
+        "newtypes over string-formatted natives: the forwarding templates are proved to agree with the wire format GIVEN the facts recorded per native in Model/Natives.lean (knownNatives); those facts are about chrono / uuid / std::net and are probed on compiled code on every run, for every format of the regenerated table T2, not proved",
+        "newtypes over non-string inner types are outside the property"])
 
 def replay(ctx, path):
     obj = json.load(open(path))
